@@ -980,6 +980,8 @@ def gen_proto_cases(rnd, tier, proto, multi=False):
             for (nm, npg) in shapes:
                 for part in ("marker", "global"):
                     cost = proto_cost(proto, xo, nself, nm, npg, part)
+                    if not xo and (part == "global" or nself > 1 or (nm, npg) not in ((1, 1), (2, 2))):
+                        continue                       # p = 0: one trivial call per nself is enough
                     if cost <= cap:
                         cands.append((cost, xo, chrgrp, nself, nm, npg, part))
     # cheap ones first so that every (vector, nself) family is represented before the budget runs out
